@@ -8,7 +8,8 @@ from props import _sift as S
 ID = 'C01'
 LEAN_MODULES = ['Proofs.C01']
 REQUIRED = ['C01.sift_residual_inv', 'C01.sift_complete', 'C01.sift_complete_unless_cutshort', 'C01.sift_cutshort_cases',
-            'C01.getNextImf_contract', 'C01.sift_getNextImf_complete', 'C01.sift_last_nonoscillatory', 'C01.sift_col_lengths']
+            'C01.getNextImf_contract', 'C01.sift_getNextImf_complete', 'C01.sift_last_nonoscillatory', 'C01.sift_col_lengths',
+            'C01.sift_pipeline_complete', 'C01.sift_pipeline_last_nonoscillatory']
 TRUSTED = ['the single-IMF extraction is an oracle table in the SIFT correspondence: row k holds the output and flag of the real '
            'public emd.sift.get_next_imf applied to the residual x - sum(c_0..c_{k-1}) computed by the harness; the model replays '
            'its own outer loop, recomputes every residual exactly and rejects the table (oracle-desync) if a residual drifts by more '
